@@ -8,11 +8,12 @@
 //!   sig.from_hex_der text               -> OK:<r>;<s>           text = hex of the UTF-8 bytes of the string
 //!   sig.compact r s recid comp          -> OK:<65 bytes>;<r'>;<s'>;<hdr'>   to_compact_bytes(Some(info)), from_compact_bytes on it
 //!   sig.from_compact bytes              -> OK:<r>;<s>;<hdr>
-//!   sig.recover compact msg hash        -> OK:K;<pubkey> | OK:E   from_compact_bytes (Err -> ERR), recover_public_key
-//!   sig.recover_digest compact digest   -> OK:K;<pubkey> | OK:E
+//!   sig.recover compact msg hash        -> OK:K;<len>;<pubkey> | OK:E   from_compact_bytes (Err -> ERR), recover_public_key
+//!   sig.recover_digest compact digest   -> OK:K;<len>;<pubkey> | OK:E
 //!   sig.sign_recover key comp msg hash rk msg2 hash2 -> OK:<same>;<pubkey> | OK:E
 //!        sign_with_deterministic_k, to_compact_bytes(None), from_compact_bytes, recover_public_key(msg2, hash2);
 //!        same = 1 when the recovered key's bytes equal the signer's to_public_key() bytes
+//!   sig.sign_recover_digest key comp msg hash rk digest -> OK:<same>;<pubkey> | OK:E   as sign_recover, through recover_public_key_from_digest
 //!   sig.compact_der der info            -> OK:<65 bytes>   from_der (no recovery info), to_compact_bytes(info); info = n | <recid><c>
 //!   sig.signed key comp msg hash rk info msg2 hash2 -> OK:<65 bytes>;<K<pubkey>|E>;<v>   in-memory signer output: to_compact_bytes(info),
 //!        recover_public_key(msg2, hash2), verify_message(msg2, own key)
@@ -150,7 +151,10 @@ pub fn run(op: &str, args: &[String]) -> Option<String> {
                     if alt.ok().and_then(|a| a.to_bytes().ok()) != p.to_bytes().ok() {
                         return Some("INCONSISTENT".into());
                     }
-                    format!("OK:K;{}", show_bytes(&okk!(p.to_bytes())))
+                    {
+                        let pb = okk!(p.to_bytes());
+                        format!("OK:K;{};{}", pb.len(), show_bytes(&pb))
+                    }
                 }
                 Err(_) => {
                     if alt.is_ok() {
@@ -169,7 +173,10 @@ pub fn run(op: &str, args: &[String]) -> Option<String> {
                     if alt.ok().and_then(|a| a.to_bytes().ok()) != p.to_bytes().ok() {
                         return Some("INCONSISTENT".into());
                     }
-                    format!("OK:K;{}", show_bytes(&okk!(p.to_bytes())))
+                    {
+                        let pb = okk!(p.to_bytes());
+                        format!("OK:K;{};{}", pb.len(), show_bytes(&pb))
+                    }
                 }
                 Err(_) => {
                     if alt.is_ok() {
@@ -239,6 +246,34 @@ pub fn run(op: &str, args: &[String]) -> Option<String> {
             let a = sig.recover_public_key(&msg, h).is_ok();
             let b = sig.recover_public_key_from_digest(&msg).is_ok();
             format!("OK:{};{}", if a { "K" } else { "E" }, if b { "K" } else { "E" })
+        }
+        "sig.sign_recover_digest" => {
+            let key = okk!(some!(key_of(args, 0, 1)));
+            let msg = some!(arg_bytes(args, 2));
+            let h = some!(args.get(3).and_then(|s| hash_of(s)));
+            let rk = some!(flag(args, 4));
+            let digest = some!(arg_bytes(args, 5));
+            let sig = okk!(ECDSA::sign_with_deterministic_k(&key, &msg, h, rk));
+            let c = sig.to_compact_bytes(None);
+            let back = okk!(Signature::from_compact_bytes(&c));
+            let own = okk!(okk!(key.to_public_key()).to_bytes());
+            // both the parsed object and the signer's in-memory object must behave the same
+            let direct = sig.recover_public_key_from_digest(&digest).ok().and_then(|p| p.to_bytes().ok());
+            match back.recover_public_key_from_digest(&digest) {
+                Ok(p) => {
+                    let pb = okk!(p.to_bytes());
+                    if direct.as_ref() != Some(&pb) {
+                        return Some("INCONSISTENT".into());
+                    }
+                    format!("OK:{};{}", (pb == own) as u8, show_bytes(&pb))
+                }
+                Err(_) => {
+                    if direct.is_some() {
+                        return Some("INCONSISTENT".into());
+                    }
+                    "OK:E".into()
+                }
+            }
         }
         "sighashsig.roundtrip" => {
             let sig = okk!(sig_of(&some!(arg_bytes(args, 0)), &some!(arg_bytes(args, 1))));
